@@ -296,6 +296,45 @@ def gen_forms_anova(rng):
     return rows, yobj, yex, form_I(rows, iform), dict(yform=yform, iform=iform, **desc)
 
 
+def gen_binary(rng, d, m=None):
+    """samples with mode size 2 in every mode (both values observed everywhere): full grid when m is None, else m
+    random rows plus the two constant rows.  Used for the larger d where the number of pair tensors summed by
+    add_many crosses its rounding period (15): d = 6 -> 15 pairs, d = 7 -> 21, d = 10 -> 45."""
+    if m is None:
+        rows = [list(t) for t in itertools.product(range(2), repeat=d)]
+        rng.shuffle(rows)
+    else:
+        rows = [[0] * d, [1] * d] + [[rng.randint(0, 1) for _ in range(d)] for _ in range(m)]
+    y = [rng.randint(-9, 9) for _ in rows]
+    return rows, y
+
+
+def oracle_near(tn, rows, y, r):
+    """ANOVA(order=2).cores(r, noise=0, only_near=True) with equal mode sizes (the only case in which that option
+    runs for d >= 3): d-1 summands in add_many.  Only what the property says for every option is checked: observed
+    mode sizes, consistent cores, TT-ranks <= r, finite entries."""
+    inp = dict(kind='near', rows=rows, y=y, r=r)
+    d = len(rows[0])
+    shp = [len(set(r_[k] for r_ in rows)) for k in range(d)]
+    try:
+        A = tn.ANOVA(np.array(rows, dtype=int), np.array(y, dtype=float), order=2, seed=1)
+        Y = A.cores(r=r, noise=0., only_near=True)
+    except Exception as e:  # noqa
+        return dict(what='ANOVA.cores(only_near=True) raised on equal mode sizes: ' + repr(e)[:200], input=inp)
+    if [G.shape[1] for G in Y] != shp:
+        return dict(what='ANOVA.cores(only_near=True): mode sizes are not the observed ones', input=inp,
+                    got=[G.shape[1] for G in Y], expected=shp)
+    rk = ranks_of(Y)
+    if any(G.shape[0] != rk[k] for k, G in enumerate(Y)) or rk[-1] != 1:
+        return dict(what='ANOVA.cores(only_near=True): inconsistent core shapes', input=inp, got=[G.shape for G in Y])
+    if max(rk) > r:
+        return dict(what=f'ANOVA.cores(only_near=True) with {d - 1} summands: order-2 TT-ranks exceed r', input=inp,
+                    got=rk, expected=r)
+    if not all(np.all(np.isfinite(G)) for G in Y):
+        return dict(what='ANOVA.cores(only_near=True): non-finite entries', input=inp)
+    return None
+
+
 def ranks_of(Y):
     return [1] + [G.shape[2] for G in Y]
 
@@ -506,6 +545,11 @@ def corr_cores1(R, ctx, tn):
     return bad
 
 
+def _dense_and_ranks(tn, rows, y, r, dense=True):
+    Y = tn.anova(np.array(rows, dtype=int), np.array(y, dtype=float), r=r, order=2, noise=0., seed=1)
+    return [tn.full(Y) if dense else [], ranks_of(Y), [int(G.shape[1]) for G in Y]]
+
+
 def corr_order2(R, ctx, tn):
     """teneva.anova(..., order=2, noise=0) with r large enough for the exact TT-rank: dense export vs the model
     (Qc, exact skeleton U=A, V=I, no truncation) within 1e-8*scale; ranks <= r; shapes"""
@@ -538,8 +582,59 @@ def corr_order2(R, ctx, tn):
                      f'(fun M => cores OQc M {r}%nat (Q2Qc 0) true (g4 []) skelQ truncQ))')
         near.append((rows, y, r, res))
         dist['only_near'] = dist.get('only_near', 0) + 1
+    # d = 6 (15 pair tensors: the periodic rounding of add_many, every 15 summands, falls on the last one) and d = 7
+    # (21, control), mode sizes 2, r at / above the exact rank 8: dense vs the model; and with r = 2, 3 (below the exact
+    # rank): mode sizes and TT-ranks <= r, which only the final truncate(Y, e, r) call enforces
+    big, capped = [], []
+    for dd, rr, m in ((6, 8, None), (6, 9, 24), (7, 8, 30)) if not ctx['thorough'] else \
+            ((6, 8, None), (6, 9, 24), (6, 8, 40), (7, 8, 30), (7, 9, None), (7, 8, 60)):
+        rows, y = gen_binary(rng, dd, m)
+        res = C.call_impl(lambda: _dense_and_ranks(tn, rows, y, rr))
+        cases.append(f'show_r show_dense (anova_tt OQc {C.nested(rows, C.zlit)} {qlist(y)} {rr}%nat 2%nat (Q2Qc 0) '
+                     f'(g4 []) skelQ truncQ)')
+        big.append((rows, y, rr, res))
+        dist['d'][str(dd)] = dist['d'].get(str(dd), 0) + 1
+    for dd in (6, 6, 7, 6, 7, 10):
+        rows, y = gen_binary(rng, dd, rng.choice([None, 20, 40]) if dd < 10 else 60)
+        rr = rng.choice([2, 3, 4])
+        capped.append((rows, y, rr, C.call_impl(lambda: _dense_and_ranks(tn, rows, y, rr, dense=False))))
+        dist['rank_cap_d'] = dist.get('rank_cap_d', {})
+        dist['rank_cap_d'][str(dd)] = dist['rank_cap_d'].get(str(dd), 0) + 1
     vals = C.run_cases('C13_order2', HEADER, cases, chunk=4)
     bad = []
+    for c, (rows, y, r, res) in enumerate(big):
+        md = vals[len(meta) + len(near) + c]
+        inp = dict(stream='order2_big', rows=rows, y=y, r=r)
+        R.add_distinct(('order2_big', rows, y, r))
+        scale = max(1.0, max(abs(v) for v in y))
+        why = None
+        if res[0] != 0:
+            why = f'implementation raised (error class {res[0]})'
+        else:
+            full, rk, shp = np.array(res[1][0], dtype=float), res[1][1], res[1][2]
+            if md[0] != [0] or md[1] != list(full.shape) or shp != md[1]:
+                why = f'shape: model {md[:2]} impl {shp}'
+            elif not all(close(m_, x, 1e-8 * scale) for m_, x in zip(fr_list(md[2]), full.reshape(-1))):
+                err = max(abs(float(m_) - float(x)) for m_, x in zip(fr_list(md[2]), full.reshape(-1)))
+                why = f'd={len(rows[0])}: dense export differs from the model by {err:.3e}'
+            elif max(rk) > r or rk[-1] != 1:
+                why = f'd={len(rows[0])}: ranks {rk} exceed r={r}'
+        if why:
+            bad.append(dict(stream='order2_big', input=inp, why=why))
+    for rows, y, r, res in capped:
+        inp = dict(stream='order2_cap', rows=rows, y=y, r=r)
+        R.add_distinct(('order2_cap', rows, y, r))
+        why = None
+        if res[0] != 0:
+            why = f'implementation raised (error class {res[0]})'
+        else:
+            rk, shp = res[1][1], res[1][2]
+            if shp != [2] * len(rows[0]):
+                why = f'mode sizes {shp}'
+            elif max(rk) > r or rk[-1] != 1 or rk[0] != 1:
+                why = f'd={len(rows[0])} ({len(rows[0]) * (len(rows[0]) - 1) // 2} pair tensors): TT-ranks {rk} exceed r={r}'
+        if why:
+            bad.append(dict(stream='order2_cap', input=inp, why=why))
     for c, (rows, y, r, res) in enumerate(near):
         md = vals[len(meta) + c]
         inp = dict(stream='order2_near', rows=rows, y=y, r=r)
@@ -1195,6 +1290,8 @@ def oracle_func(tn, X, y, n, a, b, lamb, pts, rounding=True, forms=None):
 
 def _run_oracle(tn, p):
     with np.errstate(all='ignore'):
+        if p.get('kind') == 'near':
+            return oracle_near(tn, p['rows'], p['y'], p['r'])
         if p.get('kind') == 'func':
             return oracle_func(tn, p['X'], p['y'], p['n'], p['a'], p['b'], p['lamb'], p['pts'], p.get('rounding', True),
                                p.get('forms'))
@@ -1215,6 +1312,8 @@ def search(R, ctx, deep, hints):
             fm = dict(yform=inp['yform'], iform=inp['iform'], sform=inp['sform'])
             cand.append(dict(kind='anova', rows=inp['rows'], y=inp['y'], r=inp['r'], order=inp['order'], noise=0.,
                              forms=fm))
+        if inp.get('stream') in ('order2_big', 'order2_cap'):
+            cand.append(dict(kind='anova', rows=inp['rows'], y=inp['y'], r=inp['r'], order=2, noise=0.))
         if inp.get('stream') == 'history':
             for r in sorted(set(inp['r'])):
                 cand.append(dict(kind='anova', rows=inp['rows'], y=inp['y'], r=r, order=inp['order'], noise=0.))
@@ -1246,6 +1345,18 @@ def search(R, ctx, deep, hints):
     g6 = [list(t) for t in itertools.product(range(2), repeat=6)]
     cand.append(dict(kind='anova', rows=g6, y=[t[0] * t[5] + t[1] * t[2] - t[3] + 2 * t[4] for t in g6], r=8,
                      order=2, noise=0.))
+    # the rounding period of add_many (every 15 summands; the final truncate is the only one that enforces r):
+    # through teneva.anova the number of summands after the first is d(d-1)/2 = 15 (d=6), 21 (d=7), 45 (d=10);
+    # through cores(only_near=True) it is d-1 = 14, 15, 16, 30 (d = 15, 16, 17, 31, mode sizes 2)
+    for r_ in (2, 3):
+        cand.append(dict(kind='anova', rows=g6, y=[t[0] * t[5] + t[1] * t[2] - t[3] + 2 * t[4] for t in g6], r=r_,
+                         order=2, noise=0.))
+    for dd, m_, r_ in ((6, 25, 2), (7, 30, 2), (7, None, 8), (10, 50, 3)) + (((10, None, 32),) if deep else ()):
+        rows, y = gen_binary(rng, dd, m_)
+        cand.append(dict(kind='anova', rows=rows, y=y, r=r_, order=2, noise=0.))
+    for dd in (15, 16, 17, 31):
+        rows, y = gen_binary(rng, dd, 40)
+        cand.append(dict(kind='near', rows=rows, y=y, r=rng.choice([2, 3])))
     # random structured inputs
     n_rand = 60 if not deep else 400
     for _ in range(n_rand):
@@ -1320,7 +1431,7 @@ def replay(data):
     p = data['payload']
     print(data['what'])
     inp = p.get('input')
-    if isinstance(inp, dict) and inp.get('kind') in ('anova', 'func'):
+    if isinstance(inp, dict) and inp.get('kind') in ('anova', 'func', 'near'):
         f = _run_oracle(tn, inp)
         print('replayed:', f)
         return 1 if f else 0
